@@ -671,6 +671,10 @@ class HandoffAnalysis:
                 return [(cnt, pend - {('smart', e[1])})]
             if e[0] == 'AD':
                 o = ('var', e[1])
+                if o in pend and e[1] in thread_escapes:
+                    h.undecided.append('std::thread `%s` started with the closure is passed to %s, which is not followed: cannot see '
+                                       'whether it is detached or joined' % (e[2], thread_escapes[e[1]]))
+                    return [(cnt, pend - {o})]
                 if o in pend:
                     h.problems.append(('thread-not-detached',
                                        'std::thread `%s` started with the closure is destroyed while still joinable on some path '
@@ -686,6 +690,20 @@ class HandoffAnalysis:
                         return [(cnt, pend - {o})]
             return [st]
 
+        thread_escapes = {}
+        tvars = {e['owner'][1] for e in ev.values() if e['kind'] == 'thread-local' and e['owner'][0] == 'var'}
+        if tvars:
+            for b, i, x in nodes:
+                if x.get('kind') in CALLS + CONSTRUCTS:
+                    sd, obj, args = call_parts(tu, x)
+                    if sd.get('q') in (THREAD_DETACH, THREAD_JOIN, THREAD_JOINABLE):
+                        continue
+                    for a in args:
+                        c = core(tu, a)
+                        if c is not None and c.get('kind') == 'UnaryOperator' and c.get('opcode') == '&':
+                            c = core(tu, tu.kids(c)[0])
+                        if c is not None and c.get('kind') == 'DeclRefExpr' and c.get('referencedDecl', {}).get('id') in tvars:
+                            thread_escapes[c['referencedDecl']['id']] = '%s (%s)' % (sd.get('q'), tu.loc(x))
         try:
             exits, res = exit_states(g, [(0, frozenset())], transfer)
         except RuntimeError as ex:
